@@ -230,7 +230,7 @@ type logTap struct {
 
 func (l *logTap) record(dir, text string) {
 	l.r.Emit("log", "dir", dir, "leak", l.scan(text), "redacted", strings.Contains(text, "<SMTP auth data redacted>"),
-		"text", clipS(text, 300), "post", false, "verbatim", true)
+		"text", clipS(text, 300), "post", false, "verbatim", true, "after", false)
 }
 
 func (l *logTap) Write(p []byte) (int, error) {
@@ -310,14 +310,43 @@ func PostProcessLogs(evs []rec.Ev) {
 			}
 		}
 	}
-	for k, i := range c2s {
-		if k >= len(cmds) {
-			break
+	authRet := -1 // index of the event that marks the return of smtp.Client.Auth (RawAuth scenarios)
+	for i, e := range evs {
+		if e["ev"] == "authret" {
+			authRet = i
 		}
-		line, _ := evs[cmds[k]]["line"].(string)
+	}
+	for _, i := range append(append([]int{}, c2s...), s2c...) {
+		evs[i]["after"] = authRet >= 0 && i > authRet
+	}
+	// a client-to-server record is verbatim when it carries the line of the command it belongs to. Records and
+	// commands are aligned by content: logging may start late (SetDebugLog during the exchange), and a line that
+	// was logged may never have reached the server (the write failed).
+	ptr := 0
+	for _, i := range c2s {
 		text, _ := evs[i]["text"].(string)
+		red, _ := evs[i]["redacted"].(bool)
+		found := -1
+		for k := ptr; k < len(cmds); k++ {
+			line, _ := evs[cmds[k]]["line"].(string)
+			if (line != "" && strings.Contains(text, line)) || (line == "" && k == ptr && !red) {
+				found = k
+				break
+			}
+		}
+		if found >= 0 {
+			evs[i]["post"] = authOK >= 0 && found > authOK
+			evs[i]["verbatim"] = true
+			ptr = found + 1
+			continue
+		}
+		// redacted, or never seen by the server
+		k := ptr
+		if red && k < len(cmds) {
+			ptr = k + 1 // a redacted record stands for the next command
+		}
 		evs[i]["post"] = authOK >= 0 && k > authOK
-		evs[i]["verbatim"] = strings.Contains(text, line)
+		evs[i]["verbatim"] = !red
 	}
 	for k, i := range s2c {
 		red, _ := evs[i]["redacted"].(bool)
@@ -982,6 +1011,12 @@ func (rn *Runner) Run() {
 			aerr = sc2.Auth(rawMech(cfg.Authtype, host))
 		})
 		r.Emit("ret", "op", "RawAuth", "err", aerr != nil, "elapsed", el, "text", clip(aerr))
+		r.Emit("authret")
+		if aerr != nil && sc2 != nil && !sc2.HasConnection() {
+			// Auth gave up and closed the connection; whatever the caller does next is logged normally again
+			// (the line is logged before the write fails)
+			_ = sc2.Noop()
+		}
 		if aerr == nil && sc2 != nil {
 			var cerr error
 			el = rn.timed(func() { cerr = sc2.Quit() })
